@@ -108,6 +108,9 @@ pub fn replay(c: &Value) -> Option<(String, String)> {
     let cfg: Config = serde_json::from_value(c["cfg"].clone()).ok()?;
     let sents: Vec<(String, Vec<u8>)> = serde_json::from_value(c["sentences"].clone()).ok()?;
     let sents: Vec<(Vec<char>, Vec<u8>)> = sents.into_iter().map(|(t, l)| (t.chars().collect(), l)).collect();
+    if c["short_sig"] == true {
+        return check_case(&cfg, &sents).map(|(k, w)| (format!("{k} long-dict-word len={} bucket={}", cfg.dict[0].chars().count(), cfg.bucket), w));
+    }
     check_case(&cfg, &sents).map(|(k, w)| (sig(&k, &cfg, &sents), w))
 }
 
@@ -171,6 +174,36 @@ pub fn run(tier: Tier) -> ! {
             }
         }
     });
+    // long dictionary words (lengths around the u8 limit) with small and large buckets
+    {
+        let long = |n: usize| "a".repeat(n);
+        let mut jobs = vec![];
+        for &len in &[255usize, 256, 257, 300, 513] {
+            for &bucket in &[1u8, 4, 200, 255] {
+                let cfg = Config { charw: 1, charn: 1, typew: 0, typen: 0, dict: vec![long(len), "ab".into()], bucket, solver: 1 };
+                for extra in 0..3usize {
+                    // sentence: b^extra a^len b  (the word occurs once, away from / at the sentence start)
+                    let text: Vec<char> = "b".repeat(extra).chars().chain(long(len).chars()).chain("b".chars()).collect();
+                    let mut labels = vec![0u8; text.len() - 1];
+                    if extra > 0 {
+                        labels[extra - 1] = 1;
+                    }
+                    labels[extra + len - 1] = 1;
+                    labels[extra + len / 2] = 2;
+                    jobs.push((cfg.clone(), vec![(text, labels)]));
+                }
+            }
+        }
+        chk.set("long_dictionary_word_cases", json!(jobs.len()));
+        jobs.par_iter().for_each(|(cfg, sents)| {
+            chk.eval(1);
+            chk.nontrivial(1);
+            if let Some((k, what)) = check_case(cfg, sents) {
+                let short = format!("{k} long-dict-word len={} bucket={}", cfg.dict[0].chars().count(), cfg.bucket);
+                chk.violation(short, what, json!({"cfg": cfg, "sentences": sents.iter().map(|(t, l)| (gen::s(t), l.clone())).collect::<Vec<_>>(), "short_sig": true}));
+            }
+        });
+    }
     chk.sample(json!({"cfg": "cw=2 cn=2 tw=1 tn=3 dict=[a,ab,aba,あ,1a] bucket=2", "sentence": "ab1a", "labels": "WUN", "expected_examples": 2}));
     chk.assume("reference features: n-grams of length 1..N fully inside [i+1-W, i+1+W) with rel = start-(i+1); one left/inside/right(bucket) feature per dictionary-word occurrence touching the boundary, with multiplicity");
     chk.finish(
